@@ -113,8 +113,16 @@ var dataReaders = map[string]bool{
 	"(*Runner).resolveIdentifier": true, "(*Runner).resolveLiteralExpression": true, "(*Runner).SetThisValue": true,
 }
 
+// functions that iterate a map but whose observable result does not depend on the order
+// (argued in DESIGN.md section 5, C08): stringsUniq returns a duplicate-free list that its only
+// caller, the field analysis, hands out as a set (C10 speaks of "the distinct names").
+var orderIndependent = map[string]bool{
+	"stringsUniq": true,
+}
+
 func (u *Universe) runSweeps(inlined map[string]bool) []sweepResult {
 	var globals, conc, nondet, ast, writers, reads []string
+	mapOrder := map[string][]string{}
 	reach := u.reachable()
 	typeFile := func(name string) string {
 		if o := u.tpkg.Scope().Lookup(name); o != nil {
@@ -145,6 +153,22 @@ func (u *Universe) runSweeps(inlined map[string]bool) []sweepResult {
 						stT, s := derefStruct(fa.X.Type())
 						if u.typeName(stT) == "Runner" && s.Field(fa.Field).Name() == "this" && !dataReaders[name] {
 							reads = append(reads, fmt.Sprintf("%s reads Runner.this at %s", name, pos()))
+						}
+					}
+				}
+				// iteration over a map: Go randomises the order (C08: same value or same error every time)
+				if reach[fn] && !orderIndependent[name] {
+					if rg, ok := in.(*ssa.Range); ok {
+						if _, isMap := rg.X.Type().Underlying().(*types.Map); isMap {
+							mapOrder[name] = append(mapOrder[name], fmt.Sprintf("%s ranges over a map at %s", name, pos()))
+						}
+					}
+					if ci, ok := in.(ssa.CallInstruction); ok {
+						if sc := ci.Common().StaticCallee(); sc != nil {
+							switch u.displayName(sc) {
+							case "(reflect.Value).MapRange", "(reflect.Value).MapKeys":
+								mapOrder[name] = append(mapOrder[name], fmt.Sprintf("%s iterates a map through %s at %s", name, u.displayName(sc), pos()))
+							}
 						}
 					}
 				}
@@ -229,14 +253,21 @@ func (u *Universe) runSweeps(inlined map[string]bool) []sweepResult {
 		sort.Strings(bad)
 		return sweepResult{Name: "package#sweep." + n, Clause: clause, Bad: uniq(bad)}
 	}
-	return []sweepResult{
+	var orderRes []sweepResult
+	if len(mapOrder) == 0 {
+		orderRes = append(orderRes, mk("map-order", "no reachable function iterates a map in Go's randomised order (other than those argued order-independent)", nil))
+	}
+	for _, fnName := range sortedKeys(mapOrder) {
+		orderRes = append(orderRes, mk("map-order@"+fnName, "the result of "+fnName+" does not depend on Go's randomised map iteration order", mapOrder[fnName]))
+	}
+	return append([]sweepResult{
 		mk("globals", "package-level variables (of this package and of its dependencies) are written only by init; their addresses are passed only to read-only methods", globals),
 		mk("concurrency", "no goroutine, channel or select anywhere in the package", conc),
 		mk("nondeterminism", "no call of a clock, random or environment function outside funNow/funToDay", nondet),
 		mk("ast-writes", "fields of the tree types (types.go) are written only by the parser (parser.go) and the constructors/setters in types.go", ast),
 		mk("data-reads", "the runner's data map is read only by the identifier and `this` evaluators (and by SetThisValue)", reads),
 		mk("writers", "every reachable function that writes the heap is verified against a frame (it has a contract, or is inlined into a function that has one)", writers),
-	}
+	}, orderRes...)
 }
 
 // isTreeType: a struct type of the syntax tree - it implements Node, or is one of the
